@@ -73,6 +73,13 @@ def _real_check_eql(text, model_tok):
         raise OracleDisagreement('model %r vs real lexer %r on %r' % (model_tok, real, text))
 
 
+def is_ascii(s: str) -> bool:
+    for c in s:
+        if ord(c) > 0x7f:
+            return False
+    return True
+
+
 def no_surrogates(s: str) -> bool:
     for c in s:
         if 0xD800 <= ord(c) <= 0xDFFF:
